@@ -61,11 +61,26 @@ def stats_vector(kind, n, seed):
     return v.astype(np.float32)
 
 
+class Stateful:
+    """A custom mask function that is not pure: every call flags a different pair of channels."""
+
+    def __init__(self):
+        self.calls = 0
+
+    def __call__(self, mask):
+        self.calls += 1
+        out = np.zeros(len(mask), dtype=bool)
+        out[(5 * self.calls) % len(mask)] = True
+        out[(7 * self.calls + 1) % len(mask)] = True
+        return out
+
+
 FUNCS = {
     "none": lambda m: np.zeros_like(m),
     "every3": lambda m: (np.arange(len(m)) % 3 == 0),
     "every5": lambda m: (np.arange(len(m)) % 5 == 4),
     "neighbours": lambda m: np.convolve(m.astype(int), [1, 1, 1], "same") > 0,
+    "stateful": None,  # instantiated per use (class Stateful)
 }
 
 
@@ -207,8 +222,15 @@ def check_algebra(case, ctx):
                     labels.append(op["m"])
                 else:
                     f = FUNCS[op["f"]]
-                    m.apply_funcn(f)
-                    comp = np.asarray(f(before), bool)
+                    if op["f"] == "stateful":
+                        # a flagger with memory (each call proposes other channels): whatever it returned to the library is
+                        # the custom mask, and that - not a second opinion - is what joins the channel mask
+                        f = Stateful()
+                        m.apply_funcn(f)
+                        comp = np.asarray(m.custom_mask, bool)
+                    else:
+                        m.apply_funcn(f)
+                        comp = np.asarray(f(before), bool)
                     cm, cy = comp, comp
                     if not np.array_equal(np.asarray(m.custom_mask, bool), comp):
                         raise Violation("algebra:custom-mask", f"{ctxt}")
@@ -406,7 +428,7 @@ def check_file(case, ctx):
             elif op["op"] == "method":
                 m.apply_method(op["m"])
             else:
-                m.apply_funcn(FUNCS[op["f"]])
+                m.apply_funcn(Stateful() if op["f"] == "stateful" else FUNCS[op["f"]])
     d = ctx.fresh_dir()
     p = os.path.join(d, "mask.h5")
     try:
